@@ -244,15 +244,16 @@ Lemma forward_extensions : forall q oob,
      h_next (tx_hdr t) = E2E_CLASS /\
      tx_e2e t = Some (rx_opts q ++ (if zlen oob =? 0 then [] else [ts]))) /\
   (h_next (rx_hdr q) <> E2E_CLASS ->
-     (zlen oob = 0 -> tx_e2e t = None /\ h_next (tx_hdr t) = h_next (rx_hdr q)) /\
+     (zlen oob = 0 -> tx_e2e t = None /\ h_next (tx_hdr t) = L4_UDP) /\
      (zlen oob <> 0 -> tx_e2e t = Some [ts] /\ h_next (tx_hdr t) = E2E_CLASS)).
 Proof.
   intros q oob ts t. unfold t, forward_tx. split.
-  - intro H. rewrite H. cbn [tx_hdr tx_e2e set_next h_next]. change (E2E_CLASS =? E2E_CLASS) with true. cbv beta iota.
+  - intro H. rewrite H. change (E2E_CLASS =? E2E_CLASS) with true. rewrite orb_true_r.
+    cbn [tx_hdr tx_e2e set_next h_next]. change (E2E_CLASS =? E2E_CLASS) with true. cbv beta iota.
     destruct (zlen oob =? 0); cbn [negb]; split; reflexivity.
   - intro H. apply Z.eqb_neq in H. rewrite H. split; intro Hz.
-    + rewrite Hz. cbn [negb Z.eqb tx_hdr tx_e2e set_next h_next]. rewrite H. split; reflexivity.
-    + apply Z.eqb_neq in Hz. rewrite Hz. cbn [negb tx_hdr tx_e2e set_next h_next]. change (E2E_CLASS =? E2E_CLASS) with true. split; reflexivity.
+    + rewrite Hz. cbn [negb Z.eqb orb tx_hdr tx_e2e set_next h_next]. change (L4_UDP =? E2E_CLASS) with false. split; reflexivity.
+    + apply Z.eqb_neq in Hz. rewrite Hz. cbn [negb orb tx_hdr tx_e2e set_next h_next]. change (E2E_CLASS =? E2E_CLASS) with true. split; reflexivity.
 Qed.
 
 (* ---- 3. the reply to a verified request verifies at the requesting client ---- *)
@@ -803,11 +804,12 @@ Proof.
       change (rx_ok (deliver (forward_tx q oob) nok)) with true. cbn [andb].
       unfold deliver, forward_tx. cbn [rx_opts tx_e2e].
       destruct (h_next (rx_hdr q) =? E2E_CLASS) eqn:He.
-      * destruct (zlen oob =? 0); cbn [negb].
-        -- rewrite He, app_nil_r. apply opts_same_refl.
-        -- change (E2E_CLASS =? E2E_CLASS) with true. cbv beta iota. rewrite strip_ts_app_ts. apply opts_same_refl.
-      * destruct (zlen oob =? 0); cbn [negb].
-        -- rewrite He. reflexivity.
+      * rewrite orb_true_r. change (E2E_CLASS =? E2E_CLASS) with true. cbv beta iota.
+        destruct (zlen oob =? 0); cbn [negb].
+        -- rewrite app_nil_r. apply opts_same_refl.
+        -- rewrite strip_ts_app_ts. apply opts_same_refl.
+      * destruct (zlen oob =? 0); cbn [negb orb].
+        -- change (L4_UDP =? E2E_CLASS) with false. reflexivity.
         -- change (E2E_CLASS =? E2E_CLASS) with true. reflexivity.
 Qed.
 
